@@ -220,6 +220,65 @@ def check_invalid(acc):
                 acc.violation(Viol('valid-garbage', 'garbage-argument-selects-categories', {'q': 'valid', 'kw': repr(kw)}, 'exception or empty', sorted(names)))
 
 
+def _history_job(job):
+    """the same queries as histories: argument objects reused or edited between calls, returned sets edited by the caller"""
+    lo, hi = job
+    acc = Acc()
+    singles = [(a,) for a in NAMES]
+    for inc in singles[lo:hi]:
+        a = inc[0]
+        for exc in singles:
+            # (1) one include object for two consecutive calls, the first one with an exclude
+            for shape in (set, list):
+                s_inc = shape(_tc(inc))
+                e1 = _call(TC.valid, include=s_inc, exclude=_tc(exc))
+                r = _call(TC.valid, include=s_inc)
+                acc.count('transitions', 2)
+                acc.count('evaluations')
+                acc.state(('reuse', inc, exc, shape.__name__))
+                acc.nontriv(('reuse', inc, exc, shape.__name__))
+                got = _names(r[1]) if r[0] == 'ok' else r
+                if got != catref.closure(inc):
+                    acc.violation(Viol('valid-history', 'result-depends-on-an-earlier-call-with-the-same-argument-object',
+                                       {'q': 'history', 'include': inc, 'exclude_of_first_call': exc, 'shape': shape.__name__}, sorted(catref.closure(inc)), sorted(got) if isinstance(got, frozenset) else got))
+            # (2) the same container edited in place between two match calls
+            w = set(_tc(inc))
+            h = set()
+            _call(TC.match, TC[exc[0]], include=w, exclude=h)
+            w.add(TC[exc[0]])
+            r2 = _call(TC.match, TC[exc[0]], include=w, exclude=h)
+            h.add(TC[exc[0]])
+            r3 = _call(TC.match, TC[exc[0]], include=w, exclude=h)
+            acc.count('transitions', 3)
+            exp2 = bool(catref.DESC[exc[0]] & catref.selected([a, exc[0]], None))
+            exp3 = bool(catref.DESC[exc[0]] & catref.selected([a, exc[0]], [exc[0]]))
+            if (r2[0] != 'ok' or bool(r2[1]) != exp2) or (r3[0] != 'ok' or bool(r3[1]) != exp3):
+                acc.violation(Viol('match-history', 'ignores-that-the-argument-container-was-edited-between-calls',
+                                   {'q': 'history', 'include': inc, 'added': exc}, [exp2, exp3], [r2, r3]))
+        # (3) the caller edits a returned set, then asks again
+        for q, fn, exp in (('nodes', lambda: TC.nodes(TC[a]), catref.DESC[a] - {a}), ('children', lambda: TC.children(TC[a]), catref.CHILDREN[a]),
+                           ('leaves', lambda: TC.leaves(TC[a]), catref.LEAVES[a]), ('all', lambda: TC.all(), catref.ALL),
+                           ('valid', lambda: TC.valid(include={TC[a]}), catref.DESC[a])):
+            r = _call(fn)
+            if r[0] == 'ok' and isinstance(r[1], set):
+                r[1].add(TC[a])
+                r[1].discard(next(iter(TC)))
+                r[1].discard(TC['ERROR'])
+                r[1].add(TC['ROOT'])
+            r2 = _call(fn)
+            acc.count('transitions', 2)
+            got = _names(r2[1]) if r2[0] == 'ok' and r2[1] is not None else r2
+            if got != exp:
+                acc.violation(Viol(q + '-history', 'result-changes-after-the-caller-edited-a-returned-set', {'q': 'history', 'query': q, 'target': a}, sorted(exp), sorted(got) if isinstance(got, frozenset) else got))
+        # ... and the other queries still agree with the tree afterwards
+        for b in NAMES:
+            r = _call(TC.is_child, child=TC[b], parent=TC[a])
+            acc.count('transitions')
+            if r[0] != 'ok' or bool(r[1]) != catref.is_descendant_or_self(b, a):
+                acc.violation(Viol('is_child-history', 'result-changes-after-the-caller-edited-a-returned-set', {'q': 'history', 'parent': a, 'child': b}, catref.is_descendant_or_self(b, a), r))
+    return acc
+
+
 def run(ctx):
     ctx.rule = ('exhaustive grids: 37 categories (children/nodes/leaves), 37x37 is_child, (None + 704 sets of size<=2) x '
                 '(None + 704) for valid, match over 37 targets, all 2^16 unions of top-level categories; '
@@ -234,12 +293,16 @@ def run(ctx):
     excs = singles if not ctx.quick else [None, ('PITCH',), ('NOTE_REST',), ('COMMENTS',), ('HEADER',)]
     step = 512
     ctx.pmap(_union_job, [(lo, min(lo + step, 1 << ntop), excs) for lo in range(0, 1 << ntop, step)], chunksize=1)
+    ctx.pmap(_history_job, [(lo, lo + 3) for lo in range(0, 37, 3)], chunksize=1)
     ctx.count('traces', ctx.n.get('evaluations', 0))
 
 
 def replay(case):
     acc = Acc()
     q = case.get('q')
+    if q == 'history':
+        d = _history_job((0, 37))
+        return d.viol
     if q in ('members', 'tree', 'all'):
         check_tree(acc)
     elif q in ('children', 'nodes', 'leaves', 'is_child'):
